@@ -77,8 +77,10 @@ HasLoneCR(a) == \E i \in 1..Len(a) : a[i] = CR /\ (i = Len(a) \/ a[i + 1] # LF)
 HasCR(a) == \E i \in 1..Len(a) : a[i] = CR
 
 FrameLines(ls) == Flat([i \in 1..Len(ls) |-> <<DATAW, COLON, SP>> \o ls[i] \o <<LF>>]) \o <<LF>>
-\* Response::send as it is: `for line in chunk.split('\n')`
-FrameImpl(a) == FrameLines(Split(a, "lf"))
+\* Response::send as it is (since the repair of the CR framing): CRLF and CR are replaced by LF, then `for line in chunk.split('\n')`
+\* (before the repair: FrameLines(Split(a, "lf")), which lets a lone CR through)
+FrameImpl(a) == FrameLines(Split(Normalize(a), "lf"))
+FrameOriginal(a) == FrameLines(Split(a, "lf"))
 \* the framing the property asks for: every line break of the message ends a `data:` line
 FrameWanted(a) == FrameLines(Split(a, "any"))
 
